@@ -461,6 +461,26 @@ func c10Gen(r *Rng, tier string, idx int) (string, func() string) {
 		return "src udp opens 1 sched udpFail", func() string { return lcUDPFail(idx, false) }
 	case idx == 1:
 		return "src udp opens 1 sched udpBusy", func() string { return lcUDPFail(idx, true) }
+	case idx == 60 || idx == 100 || (tier == "thorough" && idx%53 == 9):
+		// configure-error histories on the Lancero source: every failing Configure is eventually followed by a
+		// valid one and a Start that must succeed
+		var ops []string
+		rounds := r.Range(1, 2)
+		for i := 0; i < rounds; i++ {
+			for j := r.Range(1, 2); j > 0; j-- {
+				ops = append(ops, []string{"cfgBad", "cfgDup"}[r.Intn(2)])
+			}
+			if r.Chance(60) {
+				ops = append(ops, "start")
+			}
+			ops = append(ops, "cfgGood")
+			if r.Chance(30) {
+				ops = append(ops, "cfgGood")
+			}
+			ops = append(ops, "start", "stop")
+		}
+		return fmt.Sprintf("src lancero opens 1 sched cfgErr ops %s", strings.Join(ops, ",")),
+			func() string { return lcCfgErr(idx, ops) }
 	case idx == 200 || (tier == "thorough" && idx%211 == 7):
 		return "src abaco opens 1 sched abacoSelfEnd", func() string { return lcAbacoSelfEnd(idx) }
 	case idx == 2 || idx == 130 || (tier == "thorough" && idx%97 == 5):
